@@ -84,3 +84,33 @@ package op
 //@   ensures err1 == nil && root.Value == i + 1 && note.qual(root.Name) == spec.ownDegreeQual(k.Minor, i)
 //@   ensures err2 == nil && bass.Value == spec.simpleNumber(j - i + 1)
 //@   ensures spec.intervalSize(bass.Value, note.qual(bass.Name)) == spec.fmod(spec.stepCum(k.Minor, j) - spec.stepCum(k.Minor, i), 12)
+
+// ---- diatonic chords (C17) ----
+
+//@ define chordSym(name) ite(name == "_7", "7", name)
+
+//@ func NewDiatonicChorder returns (r)
+//@   allocs DiatonicChorderImpl
+//@   ensures r != nil && fresh(r) && r.scale == scale
+
+//@ func DiatonicChorderImpl.Triads returns (r)
+//@   pure
+//@   requires dc.scale != nil
+//@   ensures forall(i, 0, 7, r[i].Note == dc.scale.Notes[i] && chordSym(r[i].Name) == spec.harmonySym(dc.scale.Key.Minor, false, i))
+//@   ensures forall(i, 0, 7, r[i].Name == "" || r[i].Name == "m" || r[i].Name == "dim")
+
+//@ func DiatonicChorderImpl.Sevenths returns (r)
+//@   pure
+//@   requires dc.scale != nil
+//@   ensures forall(i, 0, 7, r[i].Note == dc.scale.Notes[i] && chordSym(r[i].Name) == spec.harmonySym(dc.scale.Key.Minor, true, i))
+//@   ensures forall(i, 0, 7, r[i].Name == "maj7" || r[i].Name == "m7" || r[i].Name == "_7" || r[i].Name == "m7b5")
+
+// Every tone of the i-th diatonic chord of a supported key is a pitch class of that key's scale.
+//@ func lemmaC17InScale returns (root, name, err)
+//@   enumerate k in keySignatures
+//@   enumerate i 0 7
+//@   requires supported(k) && 0 <= i && i < 7
+//@   ensures err == nil && root != nil && validSN(root)
+//@   ensures chordSym(name) == spec.harmonySym(k.Minor, seventh, i)
+//@   ensures spec.fmod(snSemi(root) - spec.keySemi(note.letter(k.Name), kacc(k.Accidental)) - spec.stepCum(k.Minor, i), 12) == 0
+//@   ensures forall(t, 0, 4, t < spec.chordLen(chordSym(name)) ==> exists(j, 0, 7, spec.fmod(snSemi(root) + spec.chordTone(chordSym(name), t) - spec.keySemi(note.letter(k.Name), kacc(k.Accidental)) - spec.stepCum(k.Minor, j), 12) == 0))
